@@ -74,6 +74,18 @@ def _run_case(rng, res, idx, maxlen):
         res.skip('constructor rejected: ' + str(e)[:50])
         return
     hist = gen_history(rng, rng.randint(5, maxlen), cfg)
+    # a second, unrelated model + preconditioner living in the same process and stepped in between: nothing of it may leak
+    # into the observed one (module-level caches, class-level state)
+    other = None
+    if rng.random() < 0.2:
+        try:
+            ocfg = kh.make_config(rng, callables=False, dtypes=(cfg['pdt'],), inv_dtypes=(cfg['idt'],), kl=('const',))
+            ocfg['method'], ocfg['prediv'] = cfg['method'], cfg['prediv']
+            ocfg['colocate'] = True
+            other = kh.Session(rng, ocfg, with_ref=False)
+            res.count('histories_with_second_preconditioner')
+        except kh.ConfigRejected:
+            other = None
     case = dict(idx=idx, cfg=cfg, model=s.info['desc'], history=[e[0] for e in hist])
     # scheduler only on non-callable parameters
     sched_par = [k for k, key in (('damping', 'damping'), ('factor_decay', 'decay'), ('kl_clip', 'kl'), ('lr', 'lr'),
@@ -101,6 +113,9 @@ def _run_case(rng, res, idx, maxlen):
     for ei, ev in enumerate(hist):
         if ev[0] == 'train':
             F_now = s.ref.val('F')
+            if other is not None:
+                other.train_iteration()
+                other.p.step()
             s.train_iteration()
             if ev[1] and all(s.ref.A[n] is not None for n in s.layers):
                 s.p.reset_batch()
